@@ -210,6 +210,31 @@ theorem C10_active_runs {V : Type} [PyVal V] (c : ECfg V) (hwf : WF c) {n : TM.N
     (h : activeOf (den c) (c.recOf n) = .ok true) (hc : callOf c.interp (den c) (c.recOf n) = .ok v) :
     den c n = some v := VM.C10_active_runs c hwf hn h hc
 
+/-- C02 (values): when a node is about to start, every reference it reads resolves as under the final
+    sequential denotation — the values it receives are exactly its dependencies' results after the
+    indexing the user wrote, never stale, missing or foreign. -/
+theorem C02_values_at_start {V : Type} [PyVal V] (c : ECfg V) (a : Attrs) (hwf : WF c) {tr vs}
+    (hv : VRun c a tr vs) {n : TM.Node} (hn : n ∈ vs.st.runnable) :
+    ∀ r ∈ (c.recOf n).refs, resolve vs.ρ r = resolve (den c) r := VM.C02_values_at_start c a hwf hv hn
+
+/-- C03 (build half): every call site of a traced module is a node of its own (no duplicates), however
+    often one decorated function is reused. -/
+theorem C03_distinct_call_sites {V : Type} [PyVal V] (interp : Interp V) (defs : List (Def V))
+    (hnf : NoDagFlags defs) (i : Nat) (args outs : List V)
+    (hev : evalTopComps (withIdent interp) defs i args = .ok outs)
+    (st : BState V) (refs : List Ref) (htr : traceTopComps defs i args = .ok (st, refs)) :
+    st.nodes.Nodup := VM.C03_distinct_call_sites interp defs hnf i args outs hev st refs htr
+
+/-- C13 (values): under the build-time rule (no production node refers to a debug node) leaving the
+    debug nodes out changes no production value. -/
+theorem C13_debug_nodes_never_influence {V : Type} [PyVal V] (c : ECfg V) (isDebug : TM.Node → Bool)
+    (hrule : isClosedB c (fun n => !isDebug n) = true) (x : TM.Node) (hx : isDebug x = false) :
+    den (restrict c (fun n => !isDebug n)) x = den c x := VM.C13_debug_nodes_never_influence c isDebug hrule x hx
+
+/-- C18 (`cache_deps_of`): the restart executes exactly the selected nodes that are not in the file. -/
+theorem C18_restart_runs_only_uncached {V : Type} [PyVal V] (c : ECfg V) (f : TM.Node → Bool) (n : TM.Node) :
+    n ∈ (seeded c f).nodes ↔ n ∈ c.nodes ∧ f n = false := VM.C18_restart_runs_only_uncached c f n
+
 /-- C11: over any history of successful operations on one instance no setup node is entered twice. -/
 theorem C11_setup_at_most_once {V : Type} [PyVal V] (ops : List (Op V)) (i : Inst V) (hok : InstOK i)
     (hwf : ∀ (j : Inst V) (op : Op V), WF (opCfg j op)) (hall : AllSucceed i ops) :
